@@ -325,6 +325,7 @@ def base_draw(eng, res, rule="R-PARAM-ROLE"):
 def check(eng, res):
     res.doc("R-DIST-TABLE", "written name selects the class of that name (writer keyword == reader literals; first matching dispatch test)")
     res.doc("R-PARAM-ROLE", "dataflow from text position to sampler role, independent of attribute names")
+    res.doc("R-DIST-PARAM-ORDER", "text positions 0, 1 fill the attributes that are printed at positions 0, 1")
     res.doc("R-ONE-DRAW", "one unshared draw per object per generation (from C07)")
     res.doc("R-DO-WHILE", "at least one unit (from C07)")
     res.doc("R-STOP-TEST", "stop at the first unit beyond the drawn target (from C07)")
@@ -335,6 +336,8 @@ def check(eng, res):
     res.floor("R-DIST-TABLE", n, 6)
     n = param_role(eng, res)
     res.floor("R-PARAM-ROLE", n, 6)
+    n = param_order(eng, res)
+    res.floor("R-DIST-PARAM-ORDER", n, 6)
     base_draw(eng, res)
     from . import c11
 
